@@ -66,6 +66,7 @@ func C16(c *core.Ctx, replay string) {
 	c.Rule = "(a) TLC enumerates every bucket name of length <=4 over {a,A,1,.,-,_} plus boundary lengths and IP / period forms; each is given to utils.IsValidBucketName and sent as a real CreateBucket; TLC validates every observation against BucketName (invalid => refused 4xx and nothing created). " +
 		"(b) TLC checks SettingsRoundTrip, NewBucketClean, CreateExistingNoChange, DeleteBucketOnlyEmpty, ListBucketsOwned exhaustively on a small S3GwBucket model and simulates bucket programs of two owners and an administrator; each is replayed over HTTP and after EVERY step the reply and the state (owner + six settings of every bucket, objects/versions, uploads) are compared with the prediction. " +
 		"(c) TLC enumerates every interleaving of DeleteBucket with PutObject / CreateMultipartUpload+UploadPart / CompleteMultipartUpload / CreateBucket in the implementation-shaped model PosixBucket; each schedule is forced on the real gateway through blocking hooks; TLC judges the client-visible history (replies + HeadBucket/GetBucketAcl/GetObject after quiescence) against BucketRace (AckedNotLost, NoZombieBucket, AckedDurable). " +
+		"On a versioned bucket two uploads of one key run inside DeleteBucket's window (directed schedules): every acknowledged upload must still be a readable version after a refused delete (BucketRace!AckedVersionsKept). " +
 		"Non-trivial: a name that is sent over HTTP; a program that reads back a written setting or deletes / is refused to delete a bucket; a schedule in which two requests really overlap."
 	c.Assumptions = []string{"process-level interleaving at the hook sites only (os.RemoveAll is one step); ext4, xattr metadata store",
 		"core S3 naming rules only (no xn-- / sthree- / -s3alias / --ol-s3 / .mrap reservations)",
